@@ -306,6 +306,8 @@ pub struct PciVirtio {
     pub notifications: Vec<(u64, u8, u64)>, // (offset in notify window, width, value)
     pub cfg_accesses: Vec<(bool, usize, usize)>,
     pub isr_reads: u64,
+    /// hostile devices: queue_notify_off reported for every queue
+    pub notify_off_override: Option<u16>,
 }
 
 impl PciVirtio {
@@ -330,6 +332,7 @@ impl PciVirtio {
             notifications: vec![],
             cfg_accesses: vec![],
             isr_reads: 0,
+            notify_off_override: None,
         }
     }
     fn v(&mut self, rule: &'static str, d: String) {
@@ -360,7 +363,8 @@ impl PciVirtio {
     fn pq(&mut self, q: u16) -> &mut PQ {
         let dq = self.default_qsize;
         let max = self.st.borrow().max_queue.get(&q).copied();
-        self.q.entry(q).or_insert_with(|| PQ { size: max.map(|m| m.min(65535) as u16).unwrap_or(dq), notify_off: q, ..PQ::default() })
+        let no = self.notify_off_override.unwrap_or(q);
+        self.q.entry(q).or_insert_with(|| PQ { size: max.map(|m| m.min(65535) as u16).unwrap_or(dq), notify_off: no, ..PQ::default() })
     }
     fn lookup(&mut self, off: u64, width: u8, write: bool) -> Option<(u64, &'static str, bool, u8)> {
         // a field, or one 32-bit half of a 64-bit field
